@@ -41,6 +41,7 @@ type Cfg struct {
 	NoDeep        bool
 	NoWholeFile   bool
 	NoChains      bool
+	ElementChains bool // with NoChains: components may still be references to whole single-element files
 }
 
 type gen struct {
@@ -175,6 +176,16 @@ func (g *gen) ensureComponent(file, kind string, depth int) string {
 		g.noInProg++
 		v = g.ref(kind, file, depth-1, true)
 		g.noInProg--
+	} else if depth > 0 && g.cfg.NoChains && g.cfg.ElementChains && !g.cfg.NoWholeFile && kind != "callback" && g.chance(6, "elchain") {
+		// the component is a reference to a single-element file as a whole (the only chain left when
+		// chains through other documents' components are switched off)
+		g.feat["chain:whole-file"]++
+		ef := g.reuseElement(kind, file)
+		if ef == "" {
+			ef = g.elementFile(kind, file, depth)
+		}
+		g.feat["external"]++
+		v = M{"$ref": g.relSpelling(file, ef)}
 	} else {
 		v = g.object(kind, file, depth-1)
 	}
